@@ -573,7 +573,7 @@ func (e *exec) settle(pd *pending, obs []Obs, via string, descending bool) *Fail
 			return bad("expected exactly one item to carry the new value")
 		}
 		it, o := d.missing[0], d.extra[0]
-		okTag := o.Tag == it.Tag
+		okTag := o.Tag == it.Tag || (it.hasAlt && o.Tag == it.altTag) // a still-unobserved Update/Upsert payload choice
 		if kind != pStaleUpdValue && o.Tag == m.tag(pd.tag) {
 			okTag = true
 		}
